@@ -156,7 +156,9 @@ func mWithTimeout(parent context.Context, d time.Duration) (context.Context, con
 
 // ---------------- os / net / crypto models ----------------
 //verif:model os.Environ
-func mEnviron() []string { return []string{"HOSTVAR=1"} }
+func mEnviron() []string { return hostEnvC02 }
+
+var hostEnvC02 = []string{"HOSTVAR=1"}
 
 //verif:model os.MkdirTemp
 func mMkdirTemp(dir, pattern string) (string, error) { return "/tmp/plugin-dir-v", nil }
@@ -338,12 +340,22 @@ func harnessC02b() {
 		Logger:           vLogger{},
 	}
 	p := &vProc{mode: 0, dead: make(chan struct{})}
+	skipHostEnv := true
+	if vChoice(2) == 1 {
+		// the host is itself a plugin (nested plugins): it inherited a version list from its own launch, which has
+		// nothing to do with what this client offers
+		vCover("inherited-version-list")
+		x := vNondetInt("inherited")
+		vAssume(x >= 0)
+		hostEnvC02 = []string{"HOSTVAR=1", "PLUGIN_PROTOCOL_VERSIONS=" + strconv.Itoa(x)}
+		skipHostEnv = false
+	}
 	cfg := &ClientConfig{
 		HandshakeConfig:  HandshakeConfig{MagicCookieKey: "K", MagicCookieValue: "V"},
 		VersionedPlugins: map[int]PluginSet{h1: hostA, h2: hostB},
 		Logger:           vLogger{},
 		StartTimeout:     60 * time.Second,
-		SkipHostEnv:      true,
+		SkipHostEnv:      skipHostEnv,
 		RunnerFunc: func(l hclog.Logger, cmd *exec.Cmd, tmp string) (runner.Runner, error) {
 			for _, e := range cmd.Env { // the child's environment is what the host built
 				k, v, _ := strings.Cut(e, "=")
